@@ -225,6 +225,11 @@ func pinnedCases() []pinned {
 		innerCase("C03", "C03/base_path_no_leading_slash.json", "both", "c01", "PinService.Do", s, "base_path_no_leading_slash")
 	}
 	{
+		s, _, _, m, _ := baseSchema("p0084")
+		m.Path = "things/all"
+		innerCase("C03", "C03/method_path_no_leading_slash.json", "both", "c01", "PinService.Do", s, "method_path_no_leading_slash")
+	}
+	{
 		s, _, _, _, svc := baseSchema("p0034")
 		svc.Headers = []*schema.Header{{Name: "X-Request-ID", Type: "string", Format: "uuid", Required: true}}
 		innerCase("C09", "C09/uuid_header_nonhex_accepted.json", "server", "c09", "PinService.Do", s, "uuid_header_nonhex")
